@@ -44,6 +44,24 @@ class EnumMember:
         return hash((self.cls, self.name))
 
 
+class Instance:
+    """an object of a repository class about which nothing but its class is known (a message handed to a writer,
+    ...); isinstance() and hooked method calls work on it"""
+
+    def __init__(self, ci, label=None):
+        self.ci = ci
+        self.label = label or ci.name
+
+    def __repr__(self):
+        return "<%s object>" % self.label
+
+    def __eq__(self, o):
+        return isinstance(o, Instance) and o.label == self.label
+
+    def __hash__(self):
+        return hash(("Instance", self.label))
+
+
 class Opaque:
     """a value the folder does not model (an object reached through attributes of self, ...);
     only usable as the receiver of a hooked call"""
@@ -481,6 +499,11 @@ class Ev:
             raise Unknown("type() of %s" % tn)
         if fname == "isinstance" and len(args) == 2 and not kw:
             ts = args[1] if isinstance(args[1], tuple) and not (len(args[1]) == 2 and args[1][0] == "builtin") else (args[1],)
+            if isinstance(args[0], Instance) and all(isinstance(t, ClassRef) for t in ts):
+                names = {c.name for c in self.repo.mro(args[0].ci)}
+                return any(t.ci.name in names for t in ts)
+            if all(isinstance(t, ClassRef) for t in ts) and isinstance(args[0], (int, str, bytes, bytearray, list, tuple, dict, type(None))):
+                return False
             py = []
             for t in ts:
                 if isinstance(t, tuple) and len(t) == 2 and t[0] == "builtin" and t[1] in _TYPES:
